@@ -68,9 +68,9 @@ func init() {
 			}
 			return map[string]interface{}{"record": "rows of 0..10 free pixels, every start, 1/2/3/4/6 counters", "variance": "12 patterns of the symbology tables; counters 0..15 (3 elements), 0..7 (4), 0..3 (5-6); float64 bit-precise", "scale_factors": "2"}
 		},
-		Exhaustive: func(tier string) bool { return false },
-		Outside:    []string{"rows longer than 14 pixels; counters beyond the stated ranges; scores exactly on the individual-variance threshold (the oracle uses a ±1 integer margin so that rounding can never raise a false alarm)", "the 9-element Code 39 patterns (Code 39 does not use this function)"},
-		Stubs:      []string{"math.Inf / math.IsInf -> IEEE predicates", "int->float64 conversion narrowed by known-zero bits (exact)"},
+		Exhaustive:  func(tier string) bool { return false },
+		Outside:     []string{"rows longer than 14 pixels; counters beyond the stated ranges; scores exactly on the individual-variance threshold (the oracle uses a ±1 integer margin so that rounding can never raise a false alarm)", "the 9-element Code 39 patterns (Code 39 does not use this function)"},
+		Stubs:       []string{"math.Inf / math.IsInf -> IEEE predicates", "int->float64 conversion narrowed by known-zero bits (exact)"},
 		Assumptions: append([]string{"floating point: SMT-LIB FloatingPoint 11 53 with RNE, as Go's float64"}, commonAssumptions...),
 	}
 }
